@@ -84,7 +84,10 @@ def dispatchDisk : List String → Option (Obs × Option Obs)
     match findSequenceOnDisk lookup pat st (strict = "1") false with
     | .error _ => some ([("err", "err")], some (if dirok = "1" ∧ !entries.any (fun e => e.kind == .dangling) then [] else [("err", "err")]))
     | .ok none =>
-      some ([("err", "ok"), ("found", "0")], some [("err", "ok")])
+      -- whatever the implementation returns instead must still be made of existing files of the
+      -- pattern's basename / extension (vacuously true for "nothing")
+      some ([("err", "ok"), ("found", "0"), ("be", "1"), ("exist", "1"), ("strictok", "1")],
+            some [("err", "ok"), ("be", "1"), ("exist", "1"), ("strictok", "1")])
     | .ok (some s) =>
       let ps := s.paths
       let pdir := match Seq.parse st pat with | .ok f => f.dir | .error _ => []
